@@ -407,6 +407,14 @@ static std::string stepLine(State& s, const std::vector<std::string>& w)
             slot.dec.reset(new Decoder);
             return "ok";
         }
+        if (w[2] == "copyfrom" && w.size() == 4)
+        {
+            // a Decoder is a value: the copy owns its own table of open reassemblies (Decoder's implicit copy constructor)
+            if (!s.decs.count(w[3])) return "bad-op";
+            std::unique_ptr<Decoder> c(new Decoder(*s.decs[w[3]].dec));
+            slot.dec = std::move(c);
+            return "ok";
+        }
         return "bad-op";
     }
     return "bad-op";
